@@ -4,6 +4,7 @@ the position of `export` declarations, unbound exports, and what the in-progress
 -/
 import RuschmProofs.LibRefine
 import RuschmProofs.EvalLemmas
+import RuschmSpec.Loc
 
 namespace Ruschm
 namespace Interp
@@ -325,10 +326,7 @@ theorem evalLibraryDef_position {decls₁ decls₂ : List LibDecl} {n₁ n₂ : 
 
 end Interp
 
-/-- where an export spec stands in the source -/
-def ExportSpec.loc : ExportSpec → Loc
-  | .direct _ l => l
-  | .rename _ _ l => l
+-- `ExportSpec.loc` (where an export spec stands in the source) is defined in `RuschmSpec/Loc.lean`
 
 namespace Interp
 
